@@ -558,7 +558,7 @@ fn body_json<'tcx>(tcx: TyCtxt<'tcx>, def: LocalDefId, body: &Body<'tcx>) -> Vec
                 ("ty", ty_desc(tcx, d.ty, 1)),
                 ("name", opt(names[l.as_usize()].clone(), s)),
                 ("mut", J::Bool(d.mutability.is_mut())),
-                ("user", J::Bool(d.is_user_variable())),
+                ("user", J::Bool(matches!(d.local_info, mir::ClearCrossCrate::Set(_)) && d.is_user_variable())),
             ])
         })
         .collect();
@@ -771,17 +771,31 @@ pub fn dump_crate<'tcx>(tcx: TyCtxt<'tcx>) {
 
 fn collect_bodies<'tcx>(tcx: TyCtxt<'tcx>) -> Vec<(LocalDefId, Body<'tcx>, Vec<Body<'tcx>>)> {
     let mut v = Vec::new();
+    let mut owners: Vec<(bool, LocalDefId)> = Vec::new();
     for def in tcx.hir_body_owners() {
         let kind = tcx.def_kind(def.to_def_id());
         match kind {
-            DefKind::Fn | DefKind::AssocFn | DefKind::Closure | DefKind::SyntheticCoroutineBody => {}
+            DefKind::Fn | DefKind::AssocFn | DefKind::Closure | DefKind::SyntheticCoroutineBody => owners.push((false, def)),
             // initialisers of named constants and statics (lookup tables) are bodies too
-            DefKind::Const { .. } | DefKind::AssocConst { .. } | DefKind::Static { .. } => {}
+            DefKind::Const { .. } | DefKind::AssocConst { .. } | DefKind::Static { .. } => owners.push((true, def)),
             _ => continue,
         }
+    }
+    // functions first: building a function's MIR may const-evaluate a constant (an array length), which steals that
+    // constant's `mir_promoted`; constants fall back to their CTFE body below
+    owners.sort_by_key(|(is_const, _)| *is_const);
+    for (is_const, def) in owners {
         let (steal, promoted) = tcx.mir_promoted(def);
+        if steal.is_stolen() {
+            if is_const || tcx.is_const_fn(def.to_def_id()) {
+                let body = tcx.mir_for_ctfe(def).clone();
+                let proms: Vec<Body<'tcx>> = tcx.promoted_mir(def).iter().cloned().collect();
+                v.push((def, body, proms));
+            }
+            continue;
+        }
         let body = steal.borrow().clone();
-        let proms: Vec<Body<'tcx>> = promoted.borrow().iter().cloned().collect();
+        let proms: Vec<Body<'tcx>> = if promoted.is_stolen() { Vec::new() } else { promoted.borrow().iter().cloned().collect() };
         v.push((def, body, proms));
     }
     v
